@@ -153,6 +153,10 @@ class RefServer:
                     delta = c.get("mis_delta", 1)
                     ack_num = num + delta if num + delta >= 0 else num + 1
                     self.applied = True
+                if c.get("b1_stateless") and ack_num == num:
+                    # a server that processes the blocks one by one (RFC 7959 2.5: M=0 in the response to a non-final
+                    # block: "processed individually") answers each with the final code; the client just sends the next one
+                    return (R.CHANGED, [(R.O_BLOCK1, (ack_num, False, ack_szx))], b"")
                 return (R.CONTINUE, [(R.O_BLOCK1, (ack_num, True, ack_szx))], b"")
             self.bodies.append(bytes(self.assembly))
             self.assembly = None
@@ -314,6 +318,8 @@ def _case(draw):
     }
     if draw(st.integers(0, 3)) == 0:
         case["ack_larger"] = True
+    if draw(st.integers(0, 4)) == 0:
+        case["b1_stateless"] = True
     if draw(st.integers(0, 2)) == 0:
         case["shrink2_at"] = draw(st.integers(1, 3))
         case["shrink2_to"] = draw(st.integers(0, 5))
